@@ -52,9 +52,12 @@ def gen_case(rng, cid, focus):
     hs = 20 if hash_ == "sha1" else 32
     big = rng.random() < (0.25 if focus != "C11" else 0.5)
     nrefs = rng.choice([0, 1, 2, 3, 5, 8, 13]) if not big else rng.choice([30, 60, 120, 250, 400])
+    reflogonly = focus == "C11" and rng.random() < 0.06      # a table without a ref section: RefsFor answers nothing, for every object id
     if focus == "C11":
-        nrefs = max(nrefs, 3)
+        nrefs = 0 if reflogonly else max(nrefs, 3)
     nlogn = rng.choice([0, 0, 1, 2, 4]) if not big else rng.choice([0, 10, 40, 100])
+    if reflogonly:
+        nlogn = max(nlogn, 2)
     if focus == "C02" and rng.random() < 0.5:
         nlogn = max(nlogn, 3)
     names = gen_names(rng, max(nrefs, nlogn, 1) + 3)
